@@ -44,6 +44,7 @@ func init() {
 			{Name: "filter-early-return", File: "extractor/standalone/list/list.go", Old: "	result := []standalone.Extractor{}\n	for _, ex := range exs {", New: "	result := []standalone.Extractor{}\n	if !capabs.RunningSystem {\n		return result\n	}\n	for _, ex := range exs {", Rule: "D3-filter", Site: "standalone/list.FilterByCapabilities"},
 			{Name: "enabled-set-records-detector-name", File: "scalibr.go", Old: "			enabledExtractors[e] = struct{}{}\n", New: "			enabledExtractors[d.Name()] = struct{}{}\n", Rule: "D6-enable", Site: "EnableRequiredExtractors"},
 		},
+		Neutral: c19Neutral,
 	})
 }
 
